@@ -298,6 +298,7 @@ class Runner:
     def __init__(self, ctx, exe, tag):
         self.ctx = ctx
         self.exe = exe
+        self.syms = Symbols(exe)
         self.tmp = os.path.join(ctx.verif, "build", "run", tag + "-tmp")
         os.makedirs(self.tmp, exist_ok=True)
         self.n = 0
@@ -322,6 +323,8 @@ class Runner:
             os.unlink(p)
         except OSError:
             pass
+        if res is not None:
+            drop_trusted_races(res, self.syms)
         return r.returncode, res, r.stderr
 
 
@@ -362,6 +365,39 @@ BITS = {"race": 1, "diverge": 2, "input_changed": 4, "deadlock": 8, "progress": 
 
 def classes_of(bits):
     return [c for c in VIOL_ORDER if bits & BITS[c]]
+
+
+# Trusted standard-library primitives whose internal protocol is correct on every supported target but
+# is not expressible in the C++ memory model the detector implements.  One entry today: libstdc++'s
+# std::atomic<std::shared_ptr<T>> (_Sp_atomic) guards its raw pointer with a lock bit and lets readers
+# UNLOCK with a relaxed RMW, so a later locked writer is formally unordered with an earlier locked
+# reader (the genuine ThreadSanitizer reports the same pair).  A race report is dropped only if BOTH
+# accesses are inside such a primitive.
+TRUSTED_STDLIB = re.compile(r"^std::_Sp_atomic<")
+
+
+def drop_trusted_races(rec, syms):
+    """remove race reports internal to trusted standard-library primitives; returns number dropped"""
+    races = rec.get("races")
+    if not races:
+        return 0
+    keep = []
+    for r in races:
+        (fc, _), (fp, _) = syms.funcs([r["pc_cur"], r["pc_prev"]])
+        if TRUSTED_STDLIB.match(fc) and TRUSTED_STDLIB.match(fp):
+            continue
+        keep.append(r)
+    dropped = len(races) - len(keep)
+    if dropped:
+        rec["races"] = keep
+        rec["stdlib_races_dropped"] = rec.get("stdlib_races_dropped", 0) + dropped
+        if not keep and rec.get("clsbits", 0) & BITS["race"]:
+            rec["clsbits"] &= ~BITS["race"]
+            cl = classes_of(rec["clsbits"])
+            rec["cls"] = cl[0] if cl else ("budget" if rec["clsbits"] & BITS["budget"] else "ok")
+            if not cl:
+                rec.pop("cand", None)
+    return dropped
 
 
 def race_object(r, syms):
@@ -718,6 +754,9 @@ def c18_check(ctx, tier, budget=None, write_evidence=True, family=None, op=None)
         # main sweep
         recs, errs, rd = sweep(ctx, exe, "c18-%s" % variant, ctx.seed, share, T["scheds"], extra, ctx.jobs)
         machinery += errs
+        for r in recs:
+            if r.get("t") == "run" and r.get("races"):
+                agg.stdlib_dropped += drop_trusted_races(r, syms)
         agg.add(recs, variant)
         variants_done.append(variant)
         # candidates: group by preliminary signature, process one per group
@@ -801,6 +840,7 @@ class Agg:
         self.variants = collections.Counter()
         self.samples = []
         self.fair = 0
+        self.stdlib_dropped = 0
         self.wall_runs = 0.0
         self.budget = 0
 
@@ -951,8 +991,10 @@ def write_c18_evidence(ctx, tier, agg, wall, nviol, known_hits, variants, machin
             },
             "known_findings_hit": [k["what"] for k in known_hits],
             "machinery_errors": machinery[:5],
+            "race_reports_dropped_inside_trusted_stdlib_primitives": agg.stdlib_dropped,
         },
         "assumptions": [
+            "race reports whose both accesses lie inside libstdc++'s std::atomic<std::shared_ptr> implementation are dropped (its relaxed unlock is not expressible in the C++ memory model; see DESIGN 10.3)",
             "sequentially consistent interleavings only (weak-memory reorderings are not simulated; races are found by happens-before on the memory orders written in the code)",
             "loads/stores inside uninstrumented shared libraries are invisible except mem* and the allocator",
             "<= 16 tasks, <= 24 operations per task",
